@@ -33,7 +33,7 @@ and every sequence of sources:
 * tables that are NOT well formed (no hypothesis on the table): `create_on_any_table`, `create_never_crashes`,
   `create_does_not_check_lists`, `unknown_name_in_toggle_list`, `unknown_name_in_required_list`, `set_option_crash_site_unreachable`
 * text produced from table / configuration: `displayHelp_fails_iff`, `displayHelp_output_documented`,
-  `spoofed_cmdline_lists_set_and_on_options`, `spoofCmdline_never_crashes`; integers beyond `int`:
+  `spoofed_cmdline_lists_set_and_on_options`, `spoofCmdline_never_crashes`, `defaultApp_returns_iff`; integers beyond `int`:
   `accepted_integer_satisfies_range_as_getter_returns_it`
 * `strtod` rounding (decimal → nearest binary64, `Round.lean`, bit-exact against glibc in the differential run):
   `strtod_rounds_to_nearest`, `strtod_exact_on_representable`, `strtod_rounding_monotone_in_binade`, `strtod_monotone`,
@@ -813,5 +813,19 @@ theorem inclusive_real_bound_accepts_every_true_member (lo x : Nat × Nat) (hl :
 /-- 1/10 ≤ 3/10 as fractions; the converse direction can fail by rounding: 0.1 and 0.1000000000000000055 are one double -/
 example : (0 : Nat) < 10 ∧ (1 : Nat) * 10 ≤ 3 * 10 := by decide
 example : atofBits (s "0.1") = atofBits (s "0.1000000000000000055") := by decide +kernel
+
+/-- `esl_getopts_CreateDefaultApp` hands the object back exactly when the command line parses, the configuration
+    verifies, `-h` is off and the argument count is the required one; in every other case it ends the program
+    (`exit(0)` after the help page, `exit(1)` otherwise) -/
+theorem defaultApp_returns_iff (opts : List Opt) (nargs : Int) (argv : List Str) (g : G) :
+    createDefaultApp opts nargs argv = some (.returned g) ↔
+      ∃ g0 m i, create opts = some g0 ∧ processCmdline g0 argv = .done g .ok m ∧ (verifyConfig g).1 = .ok ∧
+        optidxExactly opts ['-', 'h'] = some i ∧ (g.opt i).type = 0 ∧ (g.valOf i).isNull = true ∧
+        (nargs = -1 ∨ argNumber g = nargs) := createDefaultApp_returns_iff opts nargs argv g
+
+def appT : List Opt := [{ name := s "-h", type := 0 }, { name := s "-n", type := 1, defval := some (s "0"), range := some (s "0<=n<10") }]
+example : createDefaultApp appT 1 [s "prog", s "-n", s "3", s "file"] ≠ none ∧ createDefaultApp appT 1 [s "prog", s "-h"] = some .exitHelp ∧
+    createDefaultApp appT 1 [s "prog"] = some .exitNargs ∧ createDefaultApp appT 1 [s "prog", s "-n", s "10", s "file"] = some .exitParse ∧
+    (match createDefaultApp appT (-1) [s "prog", s "a", s "b"] with | some (.returned g) => argNumber g | _ => 0) = 2 := by decide
 
 end EaselModel.Props.C14
